@@ -120,18 +120,13 @@ Proof.
   rewrite Hs in Hy. injection Hy as <-. apply nth_error_nth. exact Hr.
 Qed.
 
-Definition fm (n : str) (vf : list pentry) : option pentry := find (fun p : pentry => str_eqb n (snd p)) vf.
-Definition var_ok (vf : list pentry) (n : str) : Prop := forall p, fm n vf = Some p -> fst p = false.
+(* the slot of a variable: the first entry that is a variable of that name *)
+Definition fm (n : str) (vf : list pentry) : option pentry := find (fun p : pentry => negb (fst p) && str_eqb n (snd p)) vf.
 
 Lemma fm_app_some : forall n a t p, fm n a = Some p -> fm n (a ++ t) = Some p.
 Proof.
   unfold fm. induction a as [|x a IH]; intros t p H; simpl in *. discriminate.
-  destruct (str_eqb n (snd x)). exact H. apply IH. exact H.
-Qed.
-Lemma fm_app_none : forall n a t, fm n a = None -> fm n (a ++ t) = fm n t.
-Proof.
-  unfold fm. induction a as [|x a IH]; intros t H; simpl in *. reflexivity.
-  destruct (str_eqb n (snd x)). discriminate. apply IH. exact H.
+  destruct (negb (fst x) && str_eqb n (snd x)). exact H. apply IH. exact H.
 Qed.
 
 Lemma find_param_spec : forall n vo k,
@@ -141,7 +136,7 @@ Lemma find_param_spec : forall n vo k,
   end.
 Proof.
   unfold fm. induction vo as [|x vo IH]; intros k; simpl. reflexivity.
-  destruct (str_eqb n (snd x)) eqn:E.
+  destruct (negb (fst x) && str_eqb n (snd x)) eqn:E.
   - exists 0%nat, x. repeat split. lia.
   - specialize (IH (S k)). destruct (find_param n vo (S k)).
     + destruct IH as (j & p & -> & Hn & Hf). exists (S j), p. repeat split; try assumption. lia.
@@ -163,50 +158,56 @@ Proof.
 Qed.
 
 Lemma add_param_var : forall vo n vo' i, add_param vo n false = (vo', i) ->
-  pfx vo vo' /\ forall vf ps binds v, pfx vo' vf -> bind vf ps = Some binds -> var_ok vf n ->
+  pfx vo vo' /\ forall vf ps binds v, pfx vo' vf -> bind vf ps = Some binds ->
                 lookup n ps = Some v -> nth (pred i) binds SNull = to_sql v.
 Proof.
   intros vo n vo' i H. unfold add_param in H.
   pose proof (find_param_spec n vo 0) as Hs. destruct (find_param n vo 0) as [k|].
   - injection H as <- <-. destruct Hs as (j & p & -> & Hn & Hf). split. apply pfx_refl.
-    intros vf ps binds v Hp Hb Hok Hl. simpl.
-    assert (Hfv : fm n vf = Some p). { destruct Hp as [t ->]. apply fm_app_some. exact Hf. }
-    pose proof (Hok p Hfv) as Hint.
-    assert (Hname : snd p = n).
-    { unfold fm in Hf. apply find_some in Hf. destruct Hf as [_ Hf]. apply str_eqb_eq in Hf. congruence. }
+    intros vf ps binds v Hp Hb Hl. simpl.
+    unfold fm in Hf. apply find_some in Hf. destruct Hf as [_ Hf]. apply andb_prop in Hf. destruct Hf as [Hint Hname].
+    apply negb_true_iff in Hint. apply str_eqb_eq in Hname.
     eapply bind_nth. exact Hb. eapply nth_error_pfx; eauto.
-    unfold slot_val. rewrite Hint, Hname, Hl. reflexivity.
+    unfold slot_val. rewrite Hint, <- Hname, Hl. reflexivity.
   - injection H as <- <-. split. apply pfx_app.
-    intros vf ps binds v Hp Hb _ Hl. simpl. eapply bind_nth. exact Hb.
+    intros vf ps binds v Hp Hb Hl. simpl. eapply bind_nth. exact Hb.
     + eapply nth_error_pfx. exact Hp. rewrite nth_error_app2 by lia. rewrite Nat.sub_diag. reflexivity.
     + unfold slot_val. simpl. rewrite Hl. reflexivity.
 Qed.
 
-Lemma xflt_canon : forall q, scanon (SReal q) = CNum q.
-Proof. reflexivity. Qed.
-
-Definition is_var (o : operand) (n : str) : Prop := o = OVar n.
-
 Lemma operand_sx_sem : forall vo o vo' x, operand_sx vo o = (vo', x) ->
   pfx vo vo' /\
   forall vf ps binds v r out, pfx vo' vf -> bind vf ps = Some binds ->
-    (forall n, o = OVar n -> var_ok vf n) -> operand_value ps o = Some v ->
+    operand_value ps o = Some v ->
     scanon (sx_eval binds r out x) = vcanon v.
 Proof.
   intros vo o vo' x H. destruct o as [v0|n]; cbn [operand_sx] in H.
   - destruct v0 as [|b|z|q|s].
-    + injection H as <- <-. split. apply pfx_refl. intros. simpl in *. injection H2 as <-. reflexivity.
-    + injection H as <- <-. split. apply pfx_refl. intros. simpl in *. injection H2 as <-. destruct b; reflexivity.
-    + injection H as <- <-. split. apply pfx_refl. intros. simpl in *. injection H2 as <-. reflexivity.
-    + injection H as <- <-. split. apply pfx_refl. intros. simpl in *. injection H2 as <-. apply xflt_canon.
+    + injection H as <- <-. split. apply pfx_refl. intros vf ps binds v r out _ _ Hv. simpl in *. injection Hv as <-. reflexivity.
+    + injection H as <- <-. split. apply pfx_refl. intros vf ps binds v r out _ _ Hv. simpl in *. injection Hv as <-. destruct b; reflexivity.
+    + injection H as <- <-. split. apply pfx_refl. intros vf ps binds v r out _ _ Hv. simpl in *. injection Hv as <-. reflexivity.
+    + injection H as <- <-. split. apply pfx_refl. intros vf ps binds v r out _ _ Hv. simpl in *. injection Hv as <-. reflexivity.
     + destruct (add_param vo s true) as [vo1 i] eqn:E. injection H as <- <-.
       destruct (add_param_internal _ _ _ _ E) as [Hp Hs]. split. exact Hp.
-      intros vf ps binds v r out Hpf Hb _ Hv. simpl in Hv. injection Hv as <-. simpl.
+      intros vf ps binds v r out Hpf Hb Hv. simpl in Hv. injection Hv as <-. simpl.
       rewrite (Hs vf ps binds Hpf Hb). reflexivity.
   - destruct (add_param vo n false) as [vo1 i] eqn:E. injection H as <- <-.
     destruct (add_param_var _ _ _ _ E) as [Hp Hs]. split. exact Hp.
-    intros vf ps binds v r out Hpf Hb Hok Hv. simpl in Hv. simpl.
-    rewrite (Hs vf ps binds v Hpf Hb (Hok n eq_refl) Hv). apply scanon_to_sql.
+    intros vf ps binds v r out Hpf Hb Hv. simpl in Hv. simpl.
+    rewrite (Hs vf ps binds v Hpf Hb Hv). apply scanon_to_sql.
+Qed.
+
+(* the default written into the WHEN of a filter *)
+Lemma default_sx_sem : forall vo d vo' dx, default_sx vo d = (vo', dx) ->
+  pfx vo vo' /\
+  forall vf ps binds r out, pfx vo' vf -> bind vf ps = Some binds -> scanon (sx_eval binds r out dx) = vcanon d.
+Proof.
+  intros vo d vo' dx H. destruct d as [|b|z|q|s]; cbn [default_sx] in H.
+  1-4: (injection H as <- <-; split; [apply pfx_refl | intros; try reflexivity]).
+  - destruct b; reflexivity.
+  - destruct (add_param vo s true) as [vo1 i] eqn:E. injection H as <- <-.
+    destruct (add_param_internal _ _ _ _ E) as [Hp Hs]. split. exact Hp.
+    intros vf ps binds r out Hpf Hb. simpl. rewrite (Hs vf ps binds Hpf Hb). reflexivity.
 Qed.
 
 (* ---------- the select list ---------- *)
@@ -307,53 +308,62 @@ Definition filter_sop (f : qfilter) : sop :=
   | _, op => SCmp op
   end.
 Definition filter_dflt := filter_default.
-Definition filter_form (m : emodel) (q : query) (f : qfilter) (xv : sx) : sfilter :=
+(* the compiled form of a filter, given the compiled value xv and (for a field with a default) the compiled default dx *)
+Definition filter_form (m : emodel) (q : query) (f : qfilter) (xv : sx) (dx : sx) : sfilter :=
   match filter_dflt m q f with
-  | Some d => FCase (default_sx d) (filter_sop f) (ref_sx (fl_ref f)) xv
+  | Some _ => FCase dx (filter_sop f) (ref_sx (fl_ref f)) xv
   | None => FPlain (filter_sop f) (ref_sx (fl_ref f)) xv
   end.
 
 Lemma compile_filters_shape : forall m q fs vo vo' sfs, compile_filters m q vo fs = (vo', sfs) ->
   pfx vo vo' /\
   forall vf ps binds, pfx vo' vf -> bind vf ps = Some binds ->
-    (forall f n, In f fs -> fl_val f = OVar n -> var_ok vf n) ->
-    Forall2 (fun f sf => exists xv, sf = filter_form m q f xv /\
-                         forall v r out, operand_value ps (fl_val f) = Some v ->
-                                         scanon (sx_eval binds r out xv) = vcanon v) fs sfs.
+    Forall2 (fun f sf => exists xv dx, sf = filter_form m q f xv dx /\
+                         (forall v r out, operand_value ps (fl_val f) = Some v ->
+                                          scanon (sx_eval binds r out xv) = vcanon v) /\
+                         (forall d r out, filter_dflt m q f = Some d -> scanon (sx_eval binds r out dx) = vcanon d)) fs sfs.
 Proof.
   intros m q fs. induction fs as [|f t IH]; intros vo vo' sfs H; cbn [compile_filters] in H.
   - injection H as <- <-. split. apply pfx_refl. intros. constructor.
   - destruct (operand_sx vo (fl_val f)) as [vo1 xv] eqn:E1.
-    destruct (compile_filters m q vo1 t) as [vo2 rest] eqn:E2. injection H as <- <-.
-    destruct (operand_sx_sem _ _ _ _ E1) as [Hp1 Hs1]. destruct (IH _ _ _ E2) as [Hp2 Hs2].
-    split. eapply pfx_trans; eauto.
-    intros vf ps binds Hpf Hb Hok. constructor.
-    + exists xv. split. reflexivity. intros v r out Hv.
-      apply (Hs1 vf ps binds v r out);
-        [ eapply pfx_trans; eauto | exact Hb | intros n Hn; eapply Hok; [left; reflexivity | exact Hn] | exact Hv ].
-    + apply (Hs2 vf ps binds); try assumption. intros f' n Hin. apply Hok. right. exact Hin.
-Qed.
-
-Lemma default_sx_canon : forall binds r out d, scanon (sx_eval binds r out (default_sx d)) = vcanon d.
-Proof.
-  intros binds r out d. destruct d as [|b| | |]; cbn [default_sx sx_eval]; try reflexivity.
-  destruct b; reflexivity.
+    assert (Hdf : match ref_field q (fl_ref f) with Some i => match field_def m i with Some fd => fd_default fd | None => None end | None => None end
+                  = filter_dflt m q f) by reflexivity.
+    rewrite Hdf in H. clear Hdf.
+    destruct (operand_sx_sem _ _ _ _ E1) as [Hp1 Hs1].
+    destruct (filter_dflt m q f) as [d|] eqn:Ed.
+    + destruct (default_sx vo1 d) as [vo2 dx] eqn:E2.
+      destruct (compile_filters m q vo2 t) as [vo3 rest] eqn:E3. injection H as <- <-.
+      destruct (default_sx_sem _ _ _ _ E2) as [Hp2 Hs2]. destruct (IH _ _ _ E3) as [Hp3 Hs3].
+      split. eapply pfx_trans. exact Hp1. eapply pfx_trans; eauto.
+      intros vf ps binds Hpf Hb. constructor.
+      * exists xv, dx. split. unfold filter_form. rewrite Ed. reflexivity. split.
+        -- intros v r out Hv. apply (Hs1 vf ps binds v r out); [ eapply pfx_trans; [exact Hp2 | eapply pfx_trans; eauto] | exact Hb | exact Hv ].
+        -- intros d' r out Hd. rewrite Ed in Hd. injection Hd as <-. apply (Hs2 vf ps binds r out). eapply pfx_trans; eauto. exact Hb.
+      * apply (Hs3 vf ps binds); assumption.
+    + destruct (compile_filters m q vo1 t) as [vo3 rest] eqn:E3. injection H as <- <-.
+      destruct (IH _ _ _ E3) as [Hp3 Hs3].
+      split. eapply pfx_trans; eauto.
+      intros vf ps binds Hpf Hb. constructor.
+      * exists xv, XNull. split. unfold filter_form. rewrite Ed. reflexivity. split.
+        -- intros v r out Hv. apply (Hs1 vf ps binds v r out); [ eapply pfx_trans; eauto | exact Hb | exact Hv ].
+        -- intros d' r out Hd. rewrite Ed in Hd. discriminate.
+      * apply (Hs3 vf ps binds); assumption.
 Qed.
 
 Lemma ref_value_name : forall m q r i, ref_value m q r (FByName i) = field_value m r i.
 Proof. reflexivity. Qed.
 
-Lemma filter_sem : forall m q binds r out f xv v,
-  operand_value [] (OLit v) = Some v ->
+Lemma filter_sem : forall m q binds r out f xv dx v,
+  (forall d, filter_dflt m q f = Some d -> scanon (sx_eval binds r out dx) = vcanon d) ->
   scanon (sx_eval binds r out xv) = vcanon v ->
   (forall k, scanon (sx_eval binds r out (XOut k)) = vcanon (ref_value m q r (FByAlias k))) ->
   (fl_val f = OLit VNull -> v = VNull) ->
   (fl_val f = OLit VNull -> filter_dflt m q f = None) ->
   (forall d, filter_dflt m q f = Some d -> d <> VNull) ->
   (v = VNull -> fl_op f = OEq \/ fl_op f = ONe -> fl_val f = OLit VNull) ->
-  is_true (filter_eval binds r out (filter_form m q f xv)) = holds (fl_op f) (ref_value m q r (fl_ref f)) v.
+  is_true (filter_eval binds r out (filter_form m q f xv dx)) = holds (fl_op f) (ref_value m q r (fl_ref f)) v.
 Proof.
-  intros m q binds r out f xv v _ Hxv Hal Hlit Hwf1 Hwf2 Hk6.
+  intros m q binds r out f xv dx v Hdx Hxv Hal Hlit Hwf1 Hwf2 Hk6.
   set (a := ref_value m q r (fl_ref f)).
   (* the key expression against the field value *)
   assert (Hx : filter_dflt m q f = None -> scanon (sx_eval binds r out (ref_sx (fl_ref f))) = vcanon a).
@@ -363,13 +373,13 @@ Proof.
       destruct (nth i r VNull); reflexivity.
     - apply Hal. }
   assert (Hxd : forall d, filter_dflt m q f = Some d ->
-             scanon (coalesce (sx_eval binds r out (ref_sx (fl_ref f))) (sx_eval binds r out (default_sx d))) = vcanon a
+             scanon (coalesce (sx_eval binds r out (ref_sx (fl_ref f))) (sx_eval binds r out dx)) = vcanon a
              /\ a <> VNull).
-  { intros d Hd. pose proof (Hwf2 d Hd) as Hdn. subst a. destruct (fl_ref f) as [i|k] eqn:Er; cbn [ref_sx].
+  { intros d Hd. pose proof (Hwf2 d Hd) as Hdn. pose proof (Hdx d Hd) as Hdxd. subst a. destruct (fl_ref f) as [i|k] eqn:Er; cbn [ref_sx].
     - cbn [sx_eval]. rewrite ref_value_name, field_value_nth.
       unfold filter_dflt, filter_default in Hd. rewrite Er in Hd. cbn [ref_field] in Hd. rewrite Hd.
       destruct (nth i r VNull) eqn:En; cbn [to_sql coalesce].
-      + split. apply default_sx_canon. exact Hdn.
+      + split. apply Hdxd. exact Hdn.
       + split. destruct b; reflexivity. discriminate.
       + split. reflexivity. discriminate.
       + split. reflexivity. discriminate.
@@ -387,7 +397,7 @@ Proof.
     assert (Hop : filter_sop f = SCmp (fl_op f)).
     { unfold filter_sop. destruct (fl_val f) as [[| | | |]|]; try reflexivity. congruence. }
     rewrite Hop. rewrite default_filter_equiv.
-    2: { intros Hc. apply scanon_null in Hc. rewrite default_sx_canon in Hc. apply vcanon_null in Hc. eapply Hwf2; eauto. }
+    2: { intros Hc. apply scanon_null in Hc. rewrite (Hdx d eq_refl) in Hc. apply vcanon_null in Hc. eapply Hwf2; eauto. }
     destruct (Hxd d eq_refl) as [Hc Hna].
     rewrite (sop_cmp_vals _ _ _ a v Hc Hxv).
     unfold holds. destruct v.
@@ -466,7 +476,6 @@ End PagingRow.
 Lemma compile_eqs_sem : forall kvs vo vo' eqs, compile_eqs vo kvs = (vo', eqs) ->
   pfx vo vo' /\
   forall vf ps binds, pfx vo' vf -> bind vf ps = Some binds ->
-    (forall ko n, In ko kvs -> snd ko = OVar n -> var_ok vf n) ->
     forall r out kval cs,
       (forall k, scanon (sx_eval binds r out (ref_sx (ok_ref k))) = vcanon (kval k)) ->
       Forall2 (fun (ko : okey * operand) c => operand_value ps (snd ko) = Some c) kvs cs ->
@@ -474,16 +483,16 @@ Lemma compile_eqs_sem : forall kvs vo vo' eqs, compile_eqs vo kvs = (vo', eqs) -
       = forallb eqv_t (trip kval kvs cs).
 Proof.
   induction kvs as [|[k o] t IH]; intros vo vo' eqs H; cbn [compile_eqs] in H.
-  - injection H as <- <-. split. apply pfx_refl. intros vf ps binds _ _ _ r out kval cs _ Hcs. inversion Hcs. reflexivity.
+  - injection H as <- <-. split. apply pfx_refl. intros vf ps binds _ _ r out kval cs _ Hcs. inversion Hcs. reflexivity.
   - destruct (operand_sx vo o) as [vo1 v] eqn:E1. destruct (compile_eqs vo1 t) as [vo2 rest] eqn:E2.
     injection H as <- <-. destruct (operand_sx_sem _ _ _ _ E1) as [Hp1 Hs1]. destruct (IH _ _ _ E2) as [Hp2 Hs2].
     split. eapply pfx_trans; eauto.
-    intros vf ps binds Hpf Hb Hok r out kval cs Hk Hcs. inversion Hcs as [|? c ? cs' Hc Hrest]; subst.
+    intros vf ps binds Hpf Hb r out kval cs Hk Hcs. inversion Hcs as [|? c ? cs' Hc Hrest]; subst.
     cbn [forallb trip combine map fst snd]. f_equal.
     + simpl in Hc. unfold eqv_t.
       rewrite (sop_cmp_vals OEq _ _ (kval k) c (Hk k)). reflexivity.
-      apply (Hs1 vf ps binds c r out); [ eapply pfx_trans; eauto | exact Hb | intros n Hn; eapply (Hok (k, o)); [left; reflexivity | exact Hn] | exact Hc ].
-    + apply (Hs2 vf ps binds); try assumption. intros ko n Hin. apply Hok. right. exact Hin.
+      apply (Hs1 vf ps binds c r out); [ eapply pfx_trans; eauto | exact Hb | exact Hc ].
+    + apply (Hs2 vf ps binds); assumption.
 Qed.
 
 Lemma combine_app' : forall A B (a b : list A) (ca cb : list B), List.length a = List.length ca ->
@@ -506,7 +515,6 @@ Lemma compile_disjs_sem : forall before todo vo done vo' ds,
   compile_disjs before vo done todo = (vo', ds) ->
   pfx vo vo' /\
   forall vf ps binds, pfx vo' vf -> bind vf ps = Some binds ->
-    (forall ko n, In ko (done ++ todo) -> snd ko = OVar n -> var_ok vf n) ->
     forall r out kval cd ct,
       (forall k, scanon (sx_eval binds r out (ref_sx (ok_ref k))) = vcanon (kval k)) ->
       Forall2 (fun (ko : okey * operand) c => operand_value ps (snd ko) = Some c) done cd ->
@@ -515,7 +523,7 @@ Lemma compile_disjs_sem : forall before todo vo done vo' ds,
       forallb eqv_t (trip kval done cd) && vlex before (trip kval todo ct).
 Proof.
   intros before todo. induction todo as [|[k o] t IH]; intros vo done vo' ds H; cbn [compile_disjs] in H.
-  - injection H as <- <-. split. apply pfx_refl. intros vf ps binds _ _ _ r out kval cd ct _ _ Hct. inversion Hct. simpl. rewrite andb_false_r. reflexivity.
+  - injection H as <- <-. split. apply pfx_refl. intros vf ps binds _ _ r out kval cd ct _ _ Hct. inversion Hct. simpl. rewrite andb_false_r. reflexivity.
   - destruct (compile_eqs vo done) as [vo1 eqs] eqn:E1.
     destruct (operand_sx vo1 o) as [vo2 v] eqn:E2.
     destruct (compile_disjs before vo2 (done ++ [(k, o)]) t) as [vo3 rest] eqn:E3.
@@ -523,17 +531,14 @@ Proof.
     destruct (compile_eqs_sem _ _ _ _ E1) as [Hp1 Hs1]. destruct (operand_sx_sem _ _ _ _ E2) as [Hp2 Hs2].
     destruct (IH _ _ _ _ E3) as [Hp3 Hs3].
     split. eapply pfx_trans. exact Hp1. eapply pfx_trans; eauto.
-    intros vf ps binds Hpf Hb Hok r out kval cd ct Hk Hcd Hct.
+    intros vf ps binds Hpf Hb r out kval cd ct Hk Hcd Hct.
     inversion Hct as [|? c ? ct' Hc Hrest]; subst.
     cbn [fold_right]. rewrite is_true_or, disj_eval_unfold. cbn [pd_eqs pd_last fst snd].
     rewrite (Hs1 vf ps binds) with (kval := kval) (cs := cd); try assumption.
     2: { eapply pfx_trans. exact Hp2. eapply pfx_trans; eauto. }
-    2: { intros ko n Hin. apply Hok. apply in_or_app. left. exact Hin. }
     rewrite (sop_cmp_vals _ _ _ (kval k) c (Hk k)).
-    2: { apply (Hs2 vf ps binds c r out); [ eapply pfx_trans; eauto | exact Hb | | exact Hc ].
-         intros n Hn. eapply (Hok (k, o)). apply in_or_app. right. left. reflexivity. exact Hn. }
+    2: { apply (Hs2 vf ps binds c r out); [ eapply pfx_trans; eauto | exact Hb | exact Hc ]. }
     rewrite (Hs3 vf ps binds Hpf Hb) with (kval := kval) (cd := cd ++ [c]) (ct := ct'); try assumption.
-    2: { intros ko n Hin. apply Hok. rewrite <- app_assoc in Hin. exact Hin. }
     2: { apply Forall2_app. exact Hcd. constructor. exact Hc. constructor. }
     rewrite trip_app by (eapply Forall2_length'; eauto). rewrite forallb_app.
     remember (forallb eqv_t (trip kval done cd)) as A eqn:EA.
@@ -590,74 +595,64 @@ Definition offset_list (off : option Z) (l : list row) : list row :=
 Lemma limit_sx_sem : forall vo o vo' x, limit_sx vo o = (vo', x) ->
   pfx vo vo' /\
   forall vf ps binds n, pfx vo' vf -> bind vf ps = Some binds ->
-    (forall nm, o = OVar nm -> var_ok vf nm) ->
     option_map as_int (operand_value ps o) = Some (Some n) ->
     lim_value binds x = Some (match o with OLit _ => if Z.eqb n 0 then None else Some n | OVar _ => Some n end).
 Proof.
   intros vo o vo' x H. destruct o as [v|nm]; cbn [limit_sx] in H.
-  - destruct v; injection H as <- <-; (split; [apply pfx_refl|]); intros vf ps binds n _ _ _ Hn; simpl in Hn; try discriminate.
+  - destruct v; injection H as <- <-; (split; [apply pfx_refl|]); intros vf ps binds n _ _ Hn; simpl in Hn; try discriminate.
     injection Hn as <-. destruct (Z.eqb z 0); reflexivity.
   - destruct (add_param vo nm false) as [vo1 i] eqn:E. injection H as <- <-.
     destruct (add_param_var _ _ _ _ E) as [Hp Hs]. split. exact Hp.
-    intros vf ps binds n Hpf Hb Hok Hn. simpl in Hn.
+    intros vf ps binds n Hpf Hb Hn. simpl in Hn.
     destruct (lookup nm ps) as [v|] eqn:El; try discriminate. simpl in Hn. destruct v; try discriminate. injection Hn as <-.
-    unfold lim_value. cbn [sx_eval]. rewrite (Hs vf ps binds (VInt z) Hpf Hb (Hok nm eq_refl) El). reflexivity.
+    unfold lim_value. cbn [sx_eval]. rewrite (Hs vf ps binds (VInt z) Hpf Hb El). reflexivity.
 Qed.
 
 Lemma compile_limit_sem : forall vo q vo' lim off, compile_limit vo q = (vo', lim, off) ->
   pfx vo vo' /\
   forall vf ps binds n k, pfx vo' vf -> bind vf ps = Some binds ->
-    (forall nm, q_first q = OVar nm -> var_ok vf nm) ->
-    (forall nm, q_skip q = Some (OVar nm) -> var_ok vf nm) ->
     option_map as_int (operand_value ps (q_first q)) = Some (Some n) ->
     match q_skip q with None => Some (Some 0) | Some o => option_map as_int (operand_value ps o) end = Some (Some k) ->
-    k_firstzero q ps = false -> k_skip_alone q = false ->
+    k_firstzero q ps = false ->
     exists ln lk, lim_value binds lim = Some ln /\ lim_value binds off = Some lk /\
-                  (forall l, limit_list ln l = take_first n l) /\ (forall l, offset_list lk l = drop_skip k l) /\
-                  (match lim, off with None, Some _ => true | _, _ => false end = false).
+                  (forall l, limit_list ln l = take_first n l) /\ (forall l, offset_list lk l = drop_skip k l).
 Proof.
   intros vo q vo' lim off H. unfold compile_limit in H.
   destruct (limit_sx vo (q_first q)) as [vo1 lim1] eqn:E1.
   destruct (limit_sx_sem _ _ _ _ E1) as [Hp1 Hs1].
+  assert (Hfirst : forall vf ps binds n, pfx vo1 vf -> bind vf ps = Some binds ->
+            option_map as_int (operand_value ps (q_first q)) = Some (Some n) -> k_firstzero q ps = false ->
+            exists ln, lim_value binds (match lim1, q_skip q with None, Some _ => Some (XInt (-1)) | l, _ => l end) = Some ln /\
+                       forall l, limit_list ln l = take_first n l).
+  { intros vf ps binds n Hpf Hb Hn Hk7. pose proof (Hs1 vf ps binds n Hpf Hb Hn) as Hl1.
+    destruct (q_first q) as [fv|fn] eqn:Ef.
+    - destruct (Z.eqb n 0) eqn:E.
+      + apply Z.eqb_eq in E. subst n. destruct lim1 as [x|].
+        * exists None. split. destruct (q_skip q); exact Hl1. intros l. reflexivity.
+        * destruct (q_skip q). exists (Some (-1)). split. reflexivity. intros l. reflexivity.
+          exists None. split. reflexivity. intros l. reflexivity.
+      + apply Z.eqb_neq in E. destruct lim1 as [x|]. 2: { simpl in Hl1. discriminate. }
+        exists (Some n). split. destruct (q_skip q); exact Hl1.
+        intros l. unfold take_first, limit_list. destruct (Z.ltb n 0) eqn:Ea, (Z.leb n 0) eqn:Eb; try reflexivity; lia.
+    - unfold k_firstzero in Hk7. rewrite Ef in Hk7. simpl in Hn.
+      destruct (lookup fn ps) as [v|] eqn:El; try discriminate. simpl in Hn. destruct v; try discriminate. injection Hn as <-.
+      destruct lim1 as [x|]. 2: { simpl in Hl1. discriminate. }
+      exists (Some z). split. destruct (q_skip q); exact Hl1.
+      intros l. unfold take_first, limit_list. destruct z; try discriminate; reflexivity. }
   destruct (q_skip q) as [so|] eqn:Es.
   - destruct (limit_sx vo1 so) as [vo2 off1] eqn:E2. injection H as <- <- <-.
     destruct (limit_sx_sem _ _ _ _ E2) as [Hp2 Hs2]. split. eapply pfx_trans; eauto.
-    intros vf ps binds n k Hpf Hb Hokf Hoks Hn Hk Hk7 Hk4.
-    pose proof (Hs1 vf ps binds n (pfx_trans _ _ _ Hp2 Hpf) Hb Hokf Hn) as Hl1.
-    assert (Hoks' : forall nm, so = OVar nm -> var_ok vf nm) by (intros nm ->; apply Hoks; reflexivity).
-    pose proof (Hs2 vf ps binds k Hpf Hb Hoks' Hk) as Hl2.
-    eexists. eexists. split. exact Hl1. split. exact Hl2. split; [|split].
-    + intros l. unfold take_first, limit_list. destruct (q_first q) as [fv|fn] eqn:Ef.
-      * destruct (Z.eqb n 0) eqn:E. apply Z.eqb_eq in E. subst. reflexivity.
-        apply Z.eqb_neq in E. destruct (Z.ltb n 0) eqn:Ea, (Z.leb n 0) eqn:Eb; try reflexivity; lia.
-      * unfold k_firstzero in Hk7. rewrite Ef in Hk7. simpl in Hn.
-        destruct (lookup fn ps) as [v|]; try discriminate. simpl in Hn. destruct v; try discriminate. injection Hn as <-.
-        destruct z; try discriminate; reflexivity.
-    + intros l. unfold drop_skip, offset_list. destruct so.
-      * destruct (Z.eqb k 0) eqn:E. apply Z.eqb_eq in E. subst. reflexivity. reflexivity.
-      * reflexivity.
-    + (* OFFSET is never written without LIMIT outside class 4 *)
-      unfold k_skip_alone in Hk4. rewrite Es in Hk4.
-      destruct (q_first q) as [fv|fn] eqn:Ef; cbn [limit_sx] in E1.
-      * destruct fv; simpl in Hn; try discriminate. injection Hn as <-. injection E1 as <- <-.
-        destruct (Z.eqb z 0) eqn:E; [|reflexivity]. apply Z.eqb_eq in E. subst z.
-        destruct so as [sv|sn]; cbn [limit_sx] in E2.
-        -- destruct sv; simpl in Hk; try discriminate. injection Hk as <-. injection E2 as <- <-.
-           destruct (Z.eqb z 0); [reflexivity | discriminate].
-        -- discriminate.
-      * destruct (add_param vo fn false). injection E1 as <- <-. reflexivity.
+    intros vf ps binds n k Hpf Hb Hn Hk Hk7.
+    destruct (Hfirst vf ps binds n (pfx_trans _ _ _ Hp2 Hpf) Hb Hn Hk7) as (ln & Hln & Hlim).
+    pose proof (Hs2 vf ps binds k Hpf Hb Hk) as Hl2.
+    exists ln. eexists. split. exact Hln. split. exact Hl2. split. exact Hlim.
+    intros l. unfold drop_skip, offset_list. destruct so.
+    + destruct (Z.eqb k 0) eqn:E. apply Z.eqb_eq in E. subst. reflexivity. reflexivity.
+    + reflexivity.
   - injection H as <- <- <-. split. exact Hp1.
-    intros vf ps binds n k Hpf Hb Hokf _ Hn Hk Hk7 _. injection Hk as <-.
-    pose proof (Hs1 vf ps binds n Hpf Hb Hokf Hn) as Hl1.
-    eexists. exists None. split. exact Hl1. split. reflexivity. split; [|split].
-    + intros l. unfold take_first, limit_list. destruct (q_first q) as [fv|fn] eqn:Ef.
-      * destruct (Z.eqb n 0) eqn:E. apply Z.eqb_eq in E. subst. reflexivity.
-        apply Z.eqb_neq in E. destruct (Z.ltb n 0) eqn:Ea, (Z.leb n 0) eqn:Eb; try reflexivity; lia.
-      * unfold k_firstzero in Hk7. rewrite Ef in Hk7. simpl in Hn.
-        destruct (lookup fn ps) as [v|]; try discriminate. simpl in Hn. destruct v; try discriminate. injection Hn as <-.
-        destruct z; try discriminate; reflexivity.
-    + intros l. reflexivity.
-    + destruct lim1; reflexivity.
+    intros vf ps binds n k Hpf Hb Hn Hk Hk7. injection Hk as <-.
+    destruct (Hfirst vf ps binds n Hpf Hb Hn Hk7) as (ln & Hln & Hlim).
+    exists ln, None. split. exact Hln. split. reflexivity. split. exact Hlim. intros l. reflexivity.
 Qed.
 
 (* ---------- every variable slot of the statement is a variable of the query: binding succeeds ---------- *)
@@ -698,16 +693,25 @@ Proof.
     + destruct (compile_sel m vo t) as [vo2 rest] eqn:E2. injection H as <- <-. eapply IH; eauto.
 Qed.
 
+Lemma default_sx_entries : forall S vo d vo' dx, default_sx vo d = (vo', dx) -> entries_ok S vo -> entries_ok S vo'.
+Proof.
+  intros S vo d vo' dx H Ho. destruct d; cbn [default_sx] in H; try (injection H as <- <-; exact Ho).
+  destruct (add_param vo s true) as [vo1 i] eqn:E. injection H as <- <-. eapply add_param_entries; eauto. discriminate.
+Qed.
+
 Lemma compile_filters_entries : forall S m q fs vo vo' sfs, compile_filters m q vo fs = (vo', sfs) ->
   entries_ok S vo -> (forall f n, In f fs -> fl_val f = OVar n -> S n) -> entries_ok S vo'.
 Proof.
   intros S m q fs. induction fs as [|f t IH]; intros vo vo' sfs H Ho Hv; cbn [compile_filters] in H.
   - injection H as <- <-. exact Ho.
   - destruct (operand_sx vo (fl_val f)) as [vo1 xv] eqn:E1.
-    destruct (compile_filters m q vo1 t) as [vo2 rest] eqn:E2. injection H as <- <-.
-    eapply IH; eauto.
-    + eapply operand_sx_entries; eauto. intros n Hn. eapply Hv; eauto. left. reflexivity.
-    + intros f' n Hin. apply Hv. right. exact Hin.
+    assert (H1 : entries_ok S vo1).
+    { eapply operand_sx_entries; eauto. intros n Hn. eapply Hv; eauto. left. reflexivity. }
+    destruct (match ref_field q (fl_ref f) with Some i => match field_def m i with Some fd => fd_default fd | None => None end | None => None end) as [d|].
+    + destruct (default_sx vo1 d) as [vo2 dx] eqn:E2. destruct (compile_filters m q vo2 t) as [vo3 rest] eqn:E3. injection H as <- <-.
+      eapply IH; eauto. eapply default_sx_entries; eauto. intros f' n Hin. apply Hv. right. exact Hin.
+    + destruct (compile_filters m q vo1 t) as [vo3 rest] eqn:E3. injection H as <- <-.
+      eapply IH; eauto. intros f' n Hin. apply Hv. right. exact Hin.
 Qed.
 
 Lemma compile_eqs_entries : forall S kvs vo vo' eqs, compile_eqs vo kvs = (vo', eqs) ->
@@ -787,19 +791,7 @@ Proof.
   destruct (limit_sx vo (q_first q)) as [vo1 lim1] eqn:E1.
   pose proof (limit_sx_entries S _ _ _ _ E1 Ho Hf) as H1.
   destruct (q_skip q) as [so|] eqn:Es.
-  - destruct (limit_sx vo1 so) as [vo2 off1] eqn:E2. injection H as <- <- <-.
+  - destruct (limit_sx vo1 so) as [vo2 off1] eqn:E2. injection H as <- _ _.
     eapply limit_sx_entries; eauto. intros n ->. apply Hs. reflexivity.
-  - injection H as <- <- <-. exact H1.
-Qed.
-
-(* the statement is well-formed SQL outside classes 4 and 8 *)
-Lemma filters_not_malformed : forall m q fs sfs,
-  Forall2 (fun f sf => exists xv, sf = filter_form m q f xv /\ True) fs sfs ->
-  (forall f, In f fs -> match filter_default m q f with Some (VStr s) => has_quote s | _ => false end = false) ->
-  existsb (fun f => match f with FCase d _ _ _ => sx_malformed d | _ => false end) sfs = false.
-Proof.
-  intros m q fs sfs H. induction H as [|f sf fs sfs (xv & -> & _) Hrest IH]; intros Hq. reflexivity.
-  simpl. rewrite IH by (intros f' Hin; apply Hq; right; exact Hin). rewrite orb_false_r.
-  specialize (Hq f (or_introl eq_refl)). unfold filter_form, filter_dflt.
-  destruct (filter_default m q f) as [d|]; [|reflexivity]. destruct d; try reflexivity. exact Hq.
+  - injection H as <- _ _. exact H1.
 Qed.
